@@ -76,6 +76,8 @@ def run_check(prop, tier="quick", root="/repo", overlay=None, quiet=False):
     mod = importlib.import_module("stverif.rules." + prop.lower())
     rep = Report(prop)
     mod.run(ctx, rep, tier)
+    from .rules.common import cross_cutting
+    cross_cutting(ctx, rep, prop)
     for clause, floor in getattr(mod, "FLOOR", {}).items():
         n = rep.count(clause)
         # a violation found in the clause explains a reduced count (a rule that reports the broken construct returns early):
